@@ -39,4 +39,4 @@ for sid in sorted(res):
         print(f"{sid}: PATCH DOES NOT APPLY {r.get('error')}")
         continue
     mark = "caught" if own in r["properties"] else ("caught-elsewhere" if r["properties"] else "MISSED")
-    print(f"{sid}: {mark} props={','.join(r['properties'])} rules={','.join(r['rules'])} {'; '.join(r['not_decided'])}")
+    print(f"{sid}: {mark} props={','.join(r['properties'])} rules={','.join(r['rules'])} {('+%d undecided' % len(r['not_decided'])) if r['not_decided'] else ''}")
